@@ -14,6 +14,7 @@
 #include "gate_contracts.h"
 struct verif_gate __verif_gate;
 int __verif_vm_r; uint8_t __verif_top_tag; int64_t __verif_top_i64;   /* ghost inputs, never assigned */
+int __verif_sa_called, __verif_sa_ret;     /* ghost (C10.exit.vm_main): run_standalone was called / what it returned */
 
 #define EXIT_SPEC_POST(ret) \
     __CPROVER_ensures(G.main_executed ==> (ret) == SPEC_EXIT(__verif_vm_r, __verif_top_tag, __verif_top_i64)) \
@@ -50,7 +51,6 @@ void h_run_standalone(void)
 /* C10.exit.vm_main: `main` of nano_vm hands run_standalone's status to the OS unchanged (any int, including negative
  * ones: nano_virt --run and the wrapper return (int)result as it is).  run_standalone / run_daemon are replaced by
  * contracts returning arbitrary ghost values. */
-int __verif_sa_called, __verif_sa_ret;     /* ghost: run_standalone was called / what it returned */
 #define main vm_main
 #include "nanovm/main.c"
 #undef main
